@@ -41,9 +41,12 @@ int par_batch(Cipher c, int be)
 /* A handle that does not own a live context is, to the library, uninitialised memory: it is
  * painted (0xA5, or the --paint pattern; poisoned under MemorySanitizer) right before every
  * init, so that an init that leaves a field unassigned cannot hide behind a zeroed object. */
+int g_obj_keep_prior;    /* set by a harness that chooses the prior content of the handle itself (C16) */
+
 static void paint_dead_handle(void *o, size_t n, void *const *ctx_field)
 {
     void *ctx; AllocRec *r;
+    if (g_obj_keep_prior) return;
     memcpy(&ctx, ctx_field, sizeof(ctx)); verif_unpoison(&ctx, sizeof(ctx));   /* may itself be painted memory */
     r = ctx ? arena_find(ctx) : NULL;
     if (r && r->live) return;          /* re-initialising a live object: left exactly as it is */
